@@ -11,9 +11,9 @@
       lines the dialer writes are accepted by the upgrader for every server configuration without
       objecting callbacks, the key the server keeps is the client's nonce, and the three lines
       the server answers with are accepted by the dialer (`pair_lines`).
-  PARTIAL: that the parsed lines are a function of the flat byte stream alone (so that the whole
-  outcome is chunking-independent) is decided by the correspondence run over a grid of chunk and
-  buffer sizes against the model, not yet by a theorem.
+  That the parsed lines — and with them the whole outcome on either side — are a function of the
+  flat byte stream alone (chunking independence) is Props/C11Flat.lean (`upgrade_flat`,
+  `dialerUpgrade_flat`, from `readLine_spec`).
 -/
 import WsVerif.Props.C09
 import WsVerif.Props.C10
